@@ -10,6 +10,8 @@ Oracle: at every durable-call position, every invocation of either run that gets
 """
 from __future__ import annotations
 
+import decimal
+
 from vk import h
 from harness import common  # noqa: F401  (lowered serdes, clock)
 from harness.inv import ASSUMPTIONS_INV, Backend, run_execution
@@ -64,6 +66,8 @@ def same(a, b):
         return isinstance(a, bool) and isinstance(b, bool) and a == b
     if isinstance(a, int):
         return isinstance(b, int) and a == b
+    if isinstance(a, decimal.Decimal):   # equal Decimals may still differ in scale (1.10 vs 1.1): user code that formats them would diverge
+        return isinstance(b, decimal.Decimal) and a.as_tuple() == b.as_tuple()
     return type(a) is type(b) and a == b
 
 
@@ -161,7 +165,7 @@ def tmpl_steps_wait_child(a, b, c, _flag):
 
             def child(cc_):
                 p = observe(obs, "B", lambda: cc_.step(lambda s: (b, "k"), name="B"))
-                q = observe(obs, "C", lambda: cc_.step(lambda s: {"n": c}, name="C"))
+                q = observe(obs, "C", lambda: cc_.step(lambda s: {"n": c, "d": decimal.Decimal("0.10")}, name="C"))
                 return [p[1], q[1]]
             y = observe(obs, "CH", lambda: ctx.run_in_child_context(child, name="CH"))
             return [x[1], y[1]]
@@ -232,17 +236,75 @@ def tmpl_large_child(a, b, _c, with_summary):
     return mk, None
 
 
+def tmpl_wrapped_suspenders(seed, _b, _c, ok):
+    """wait / callback / invoke each issued as the FIRST operation of a fresh child context: the context's START (asynchronous) and the
+    operation's START (synchronous) travel in one batch, so the response carries two operations and is paginated when the page size is 1"""
+    def setup(be):
+        be.callback_outcome["WFCB create callback id"] = ("SUCCEEDED", "cb-payload") if ok else ("FAILED", "cb-failed")
+        be.invoke_outcome["INV"] = ("SUCCEEDED", SER.DEFAULT_JSON_SERDES.serialize([seed], None)) if ok else ("FAILED", "inv-failed")
+
+    def mk(obs):
+        def handler(event, ctx):
+            def c_wait(c2):
+                c2.wait(Duration(5), name="W1")
+                return seed
+            a = observe(obs, "CW", lambda: ctx.run_in_child_context(c_wait, name="CW"))
+
+            def submitter(callback_id, wctx):
+                obs.see("CBID", "value", callback_id)
+            r = observe(obs, "WFCB", lambda: ctx.wait_for_callback(submitter, name="WFCB"))
+
+            def c_inv(c2):
+                return c2.invoke("fn", {"k": seed}, name="INV")
+            v = observe(obs, "CI", lambda: ctx.run_in_child_context(c_inv, name="CI"))
+            return [a[1], r[1], v[1]]
+        return handler
+    return mk, setup
+
+
+def tmpl_map_tolerated(a, b, _c, big):
+    """map over three items on the pool model; item 1 fails (tolerated); results optionally exceed the checkpoint limit"""
+    from aws_durable_execution_sdk_python.config import CompletionConfig, MapConfig
+    from harness import exec_world as XW
+
+    def mk(obs):
+        def handler(event, ctx):
+            XW.World()
+
+            def item(c2, x, i, items):
+                if i == 1:
+                    raise ValueError("item-failed")
+                v = c2.step(lambda s: x + a, name="S")
+                return [v, BIG] if big else [v]
+            cfg = MapConfig(max_concurrency=2, completion_config=CompletionConfig(tolerated_failure_count=1))
+
+            def run():
+                r = ctx.map([b, 0, 1], item, name="MAP", config=cfg)
+                return [[it.status.value, None if it.result is None else it.result[0], None if it.error is None else it.error.message] for it in r.all] + \
+                       [r.completion_reason.value]
+            m = observe(obs, "MAP", run)
+            ctx.wait(Duration(5), name="W")
+            z = observe(obs, "Z", lambda: ctx.step(lambda s: len(m[1]) if m[0] == "val" else -1, name="Z"))
+            return [m[1], z[1]]
+        return handler
+    return mk, None
+
+
 TEMPLATES = {
     "large_child": (tmpl_large_child, "y=child{step P (int); step Q (tuple)} returning a >256KB value (summary generator yes/no); wait; z=step using y; return"),
-    "steps_wait_child": (tmpl_steps_wait_child, "x=step A (int a); wait; y=child{step B -> (b,'k'); step C -> {'n': c}}; return [x, y]"),
+    "steps_wait_child": (tmpl_steps_wait_child, "x=step A (int a); wait; y=child{step B -> (b,'k'); step C -> {'n': c, 'd': Decimal('0.10')}}; return [x, y]"),
     "failures_caught": (tmpl_failures_caught, "try step F raises ValueError (no retry) except CallableRuntimeError -> branch; wait; step G(int); failing child caught; wait; return"),
+    "wrapped_suspenders": (tmpl_wrapped_suspenders, "child{wait}; wait_for_callback (child{create_callback; submitter step; result}, succeeds/fails); child{invoke} (succeeds/fails): each "
+                           "synchronous START is batched with its context's asynchronous START, so its response spans two pages at page size 1"),
+    "map_tolerated": (tmpl_map_tolerated, "map([b,0,1]) on the pool model, item 1 raises, tolerated_failure_count=1, results small or >256KB; wait; step using the BatchResult; "
+                      "observed: per-item status/result/error message and completion_reason"),
     "condition_callback_invoke": (tmpl_condition_callback_invoke, "wait_for_condition (2 polls, state (n,'p')); create_callback; step between; result() (succeeds/fails); invoke (succeeds/fails)"),
 }
 
 
 def _mk_lemma(tname, psel):
     tmpl, desc = TEMPLATES[tname]
-    heavy = tname == "condition_callback_invoke"
+    heavy = tname in ("condition_callback_invoke", "wrapped_suspenders", "map_tolerated")
     max_ci = 3 if (h.THOROUGH or not heavy) else 2
     max_cc = 4 if (h.THOROUGH or not heavy) else 3
 
